@@ -134,17 +134,17 @@ def build_bay(case):
         kw = {}
         SL = sc['lam']
         if sc['kind'] == 'blade1d':
-            s = spb.add_bladestiff1d(ys=ys, bf=sc['bf'], fstack=list(SL['stack']), fplyts=list(SL['plyts']),
+            s = spb.add_bladestiff1d(ys=ys, mu=sc.get('mu'), bf=sc['bf'], fstack=list(SL['stack']), fplyts=list(SL['plyts']),
                                      flaminaprops=[tuple(q) for q in SL['laminaprops']],
                                      **({'bb': sc['bb'], 'bstack': list(SL['stack']), 'bplyts': list(SL['plyts']),
                                          'blaminaprops': [tuple(q) for q in SL['laminaprops']]} if sc.get('base') else {}))
         elif sc['kind'] == 'blade2d':
-            s = spb.add_bladestiff2d(ys=ys, bf=sc['bf'], fstack=list(SL['stack']), fplyts=list(SL['plyts']),
+            s = spb.add_bladestiff2d(ys=ys, mu=sc.get('mu'), bf=sc['bf'], fstack=list(SL['stack']), fplyts=list(SL['plyts']),
                                      flaminaprops=[tuple(q) for q in SL['laminaprops']], mf=sc['mf'], nf=sc['nf'],
                                      **({'bb': sc['bb'], 'bstack': list(SL['stack']), 'bplyts': list(SL['plyts']),
                                          'blaminaprops': [tuple(q) for q in SL['laminaprops']]} if sc.get('base') else {}))
         else:
-            s = spb.add_tstiff2d(ys=ys, bf=sc['bf'], bb=sc['bb'], fstack=list(SL['stack']), fplyts=list(SL['plyts']),
+            s = spb.add_tstiff2d(ys=ys, mu=sc.get('mu'), bf=sc['bf'], bb=sc['bb'], fstack=list(SL['stack']), fplyts=list(SL['plyts']),
                                  flaminaprops=[tuple(q) for q in SL['laminaprops']], bstack=list(SL['stack']),
                                  bplyts=list(SL['plyts']), blaminaprops=[tuple(q) for q in SL['laminaprops']],
                                  mb=sc['mb'], nb=sc['nb'], mf=sc['mf'], nf=sc['nf'])
@@ -351,7 +351,7 @@ def stiffener(draw, ncuts, kinds=('blade1d', 'blade2d', 'tstiff2d')):
     sc = {'kind': kind, 'cut': draw(st.integers(0, ncuts - 1)), 'bf': draw(gen.fl(0.01, 0.1)), 'bb': draw(gen.fl(0.02, 0.1)),
           'lam': draw(gen.laminate_case(max_plies=3, allow_offset=False, uniform_bias=False)),
           'mf': draw(st.integers(2, 4)), 'nf': draw(st.integers(2, 4)), 'mb': draw(st.integers(2, 4)), 'nb': draw(st.integers(2, 4)),
-          'base': draw(st.booleans())}
+          'base': draw(st.booleans()), 'mu': draw(st.one_of(st.none(), gen.logfl(100., 5000.)))}
     sc['flange_forces'] = draw(st.lists(force(cte=True), min_size=0, max_size=2))
     sc['base_forces'] = draw(st.lists(force(cte=True), min_size=0, max_size=2))
     return sc
